@@ -62,6 +62,8 @@ check("C01", "reads return the latest write through every layer", [
        "2..5 steps, 2 keys", "2..7 steps", q={"budget_s": 400}),
     ob("VerifC01_StorageProgram", "pkg/engine/storage", "storage.Manager level: put/delete/flush/reopen programs, Get vs. model",
        "<=4 steps, 2 keys"),
+    ob("VerifC02_CleanCloseReopen", "pkg/engine", "all three log sync modes; programs of small puts, deletes, a put at a log-fragment boundary (+-1), batches of 2/3 x 30 KiB (below/above the 64 KiB log buffer); clean close; reopen: state equals the pre-close state",
+       "<=2 steps, 3 keys", "<=3 steps", q={"budget_s": 300}, t={"budget_s": 900}),
 ], [SIMFS, CLOCK, HASH, BLOOM, JSON, RAND, LOG, TIERA], ["keys > 2 bytes, values > 2 bytes except where a bulk value is stated", "compaction inside the program (C12)", "programs longer than the stated step bound"])
 
 check("C02", "acknowledged writes survive a crash; recovery yields a history prefix", [
@@ -71,6 +73,8 @@ check("C02", "acknowledged writes survive a crash; recovery yields a history pre
        "4-step history, memtable 1 B or default, every crash point", q={"budget_s": 500}),
     ob("VerifC02_CleanCloseReopen", "pkg/engine", "all three log sync modes; programs of small puts, deletes, a put at a log-fragment boundary (+-1), batches of 2/3 x 30 KiB (below/above the 64 KiB log buffer); clean close; reopen: state equals the pre-close state",
        "<=2 steps, 3 keys", "<=3 steps", q={"budget_s": 300}, t={"budget_s": 900}),
+    ob("VerifC10_DamagedFragmentedTail", "pkg/engine/storage", "log ending in an entry fragmented over three records (33 KB value), cut at every record boundary +-1, behind a header, inside a record: open succeeds, the earlier entry recovered, the large one only if complete and unaltered; then another fragmented entry and a small one written, close, reopen: both there unaltered, the cut entry not back with fabricated bytes",
+       "4 record boundaries x 5 cut offsets"),
 ], [SIMFS, CLOCK, HASH, BLOOM, RAND, LOG, TIERA, "crash counterexamples are replayed natively by materialising the post-crash directory image and running the native recovery on it"],
    ["directory-entry durability", "media errors"])
 
@@ -148,6 +152,8 @@ check("C08", "sequence numbers strictly increase", [
        "<=4 steps over put / 2-entry batch / empty batch / flush / reopen / fragmented (33 KB) put, 1 key"),
     ob("VerifC08_SeqAcrossDamagedRecovery", "pkg/engine/storage", "log tail cut at every byte offset, reopen + write, close, reopen + write: every acknowledged write above all earlier ones, reported last sequence never decreases",
        "<=2 entries before the cut, every cut offset, two recoveries"),
+    ob("VerifC10_DamagedFragmentedTail", "pkg/engine/storage", "log ending in an entry fragmented over three records (33 KB value), cut at every record boundary +-1, behind a header, inside a record: open succeeds, the earlier entry recovered, the large one only if complete and unaltered; then another fragmented entry and a small one written, close, reopen: both there unaltered, the cut entry not back with fabricated bytes",
+       "4 record boundaries x 5 cut offsets"),
 ], [SIMFS, CLOCK, HASH, BLOOM, RAND, LOG, TIERA], [])
 
 check("C09", "the log replays exactly what was appended", [
